@@ -34,9 +34,14 @@
        before html, before head, in head, in head noscript, after head, in column group, after body, after after body,
        in frameset, after frameset, after after frameset): the runs of a ++ b are not those of a followed by those
        of b; plan in the header of TreeSplitEarly.v;
-     - foster parenting on (the two OpAppendBasedOnParent of text would have to be merged in DomSpec) and a template
-       element as the current node (template contents are fetched once per piece: the second fetch is a no-op in
-       DomSpec): same argument as "in body", not carried out.
+     - a template element as the current node: same argument as "in body" with the two closed forms of
+       sink_get_template_contents (first fetch: the sink view grows by one entry, so ename_of / named / adjusted_ns /
+       hshape_b of the later states need nth (l ++ [None]) lemmas instead of conversion; later fetches: found in
+       sv_tmpl); the second OpGetTemplateContents is a no-op in DomSpec because its result is already named
+       (Sim.sim_tdom + sim_len); not carried out;
+     - foster parenting on: the text goes through OpAppendBasedOnParent, i.e. DomSpec.before_text before the table;
+       before_text (before_text d sib a) sib b = before_text d sib (a ++ b) needs parent_of / prev_of / insert_before
+       lemmas under the unique-parent invariant of the DOM; not carried out.
    ======================================================================== *)
 From Coq Require Import List NArith Bool Arith Lia String.
 From HV Require Import Dom.DomSpec Dom.DomLemmas SinkSpec.Contract SinkSpec.ContractProofs.
